@@ -29,8 +29,22 @@ if ! grep -q "TINY-RUN" "$MLOG/build.log"; then
   note "INCONCLUSIVE: C06 sanitizers: the Miri build did not run (see $MLOG/build.log)"; miri_ok=0; rc=2
 else
   miri_ok=1
+  # a shard's interpreter process ends at the first thing Miri reports (a finding, or an operation
+  # Miri does not support such as CPUID in a dependency): it is restarted after that case
+  run_shard() {
+    local s=$1 start=0 attempt n log
+    for attempt in 0 1 2 3 4 5 6 7 8 9 10 11; do
+      log="$MLOG/shard-$s.$attempt.log"
+      CARGO_TARGET_DIR=$T/miri timeout 7200 cargo +nightly miri run --offline -- --tiny-c06-files "$CORPUS" "$s" 16 "$start" > "$log" 2>&1
+      echo "exit=$?" >> "$log"
+      grep -q "^TINY-RUN" "$log" && break
+      n=$(grep -c "^TINY-CASE" "$log")
+      [ "$n" = 0 ] && break
+      start=$((start + n))
+    done
+  }
   for s in $(seq 0 15); do
-    ( CARGO_TARGET_DIR=$T/miri timeout 7200 cargo +nightly miri run --offline -- --tiny-c06-files "$CORPUS" "$s" 16 > "$MLOG/shard-$s.log" 2>&1; echo "exit=$?" >> "$MLOG/shard-$s.log" ) &
+    run_shard "$s" &
   done
   wait
 fi
@@ -66,20 +80,55 @@ miri = {"ran": miri_ok == "1", "corpus_files": int(files), "cases_run": 0, "shar
         "panics_or_bound_faults": 0, "incomplete_shards": [], "wall_s": int(tm), "flags": "-Zmiri-disable-isolation",
         "what": "calamine (and every dependency it reaches: zip, quick-xml, encoding_rs, byteorder, codepage) interpreted by Miri on faulted tiny stored containers; all read APIs of C06 are driven"}
 classes = {}
+known_prefixes = []
+try:
+    for f in json.load(open("/verif/known_findings.json"))["findings"]:
+        if f.get("property") == "C06" and f.get("status") == "open" and f.get("class_prefix"):
+            known_prefixes.append((f["class_prefix"], f.get("what", "")))
+except Exception:
+    pass
+miri["skipped_unsupported_by_miri"] = []
+miri["known_findings_hit"] = []
 if miri_ok == "1":
     for s in range(16):
-        p = "%s/shard-%d.log" % (mlog, s)
-        txt = open(p, errors="replace").read() if os.path.exists(p) else ""
-        cases = re.findall(r"^TINY-CASE (\S+)", txt, re.M)
-        miri["cases_run"] += len(cases)
-        for m in re.finditer(r"^TINY-FAILURE class=(.*?) detail=", txt, re.M):
-            classes.setdefault("c06|" + m.group(1) if not m.group(1).startswith("c06|") else m.group(1), (cases[-1] if cases else "?", "panic / allocation bound under Miri"))
-            miri["panics_or_bound_faults"] += 1
-        ub = re.search(r"^error: (Undefined Behavior|abnormal termination|unsupported operation|memory leaked|.*(?:data race|deadlock)).*$", txt, re.M)
-        if ub:
+        logs = sorted(glob.glob("%s/shard-%d.*.log" % (mlog, s)), key=lambda p: int(p.rsplit(".", 2)[1]))
+        finished = False
+        for p in logs:
+            txt = open(p, errors="replace").read()
+            cases = re.findall(r"^TINY-CASE (\S+)", txt, re.M)
+            miri["cases_run"] += len(cases)
+            if re.search(r"^TINY-RUN", txt, re.M):
+                finished = True
+            for m in re.finditer(r"^TINY-FAILURE class=(.*?) detail=", txt, re.M):
+                c = m.group(1) if m.group(1).startswith("c06|") else "c06|" + m.group(1)
+                kn = [w for (pre, w) in known_prefixes if c.startswith(pre)]
+                if kn:
+                    miri["known_findings_hit"].append(c)
+                    print("KNOWN-FINDING: property=C06 %s -- %s (Miri stage)" % (c, kn[0][:120]))
+                    continue
+                classes.setdefault(c, (cases[-1] if cases else "?", "panic / allocation bound under Miri"))
+                miri["panics_or_bound_faults"] += 1
+            ub = re.search(r"^error: (Undefined Behavior|abnormal termination|unsupported operation|memory leaked|.*(?:data race|deadlock)).*$", txt, re.M)
+            if not ub:
+                continue
             msg = re.sub(r"\d+", "N", ub.group(0))[:160]
             blk = txt[ub.start():]
-            # the innermost frame inside calamine, else the reported location
+            case = cases[-1] if cases else "?"
+            if "unsupported operation" in msg:
+                miri["skipped_unsupported_by_miri"].append({"case": case, "reason": msg})
+                continue
+            # an allocation refused by the harness's bound monitor announces itself before the abort
+            fl = [json.loads(l[2:]) for l in txt.splitlines() if l.startswith("F {")]
+            if "abnormal termination" in msg and fl and fl[-1].get("kind") == "alloc":
+                c = "alloc|%s|refused" % fl[-1].get("site", "?")
+                kn = [w for (pre, w) in known_prefixes if c.startswith(pre)]
+                if kn:
+                    miri["known_findings_hit"].append(c)
+                    print("KNOWN-FINDING: property=C06 %s -- %s (Miri stage)" % (c, kn[0][:120]))
+                else:
+                    classes.setdefault(c, (case, blk[:3000]))
+                    miri["panics_or_bound_faults"] += 1
+                continue
             fr = re.search(r"^\s*\d+: (\S.*)\n\s*at /repo/src/([^:\s]+):\d+", blk, re.M)
             where = re.search(r"^\s*--> (\S+?):\d+:\d+", blk, re.M)
             if fr:
@@ -88,13 +137,10 @@ if miri_ok == "1":
             else:
                 w = where.group(1) if where else "?"
                 w = "/".join(w.split("/")[-3:])
-            if "unsupported operation" in msg:
-                miri["incomplete_shards"].append({"shard": s, "reason": msg})
-            else:
-                miri["ub_reports"] += 1
-                classes.setdefault("miri|%s|%s" % (msg, w), (cases[-1] if cases else "?", blk[:3000]))
-        elif "TINY-RUN" not in txt:
-            miri["incomplete_shards"].append({"shard": s, "reason": "no summary line (timeout or interpreter failure); last case " + (cases[-1] if cases else "none")})
+            miri["ub_reports"] += 1
+            classes.setdefault("miri|%s|%s" % (msg, w), (case, blk[:3000]))
+        if not finished:
+            miri["incomplete_shards"].append({"shard": s, "reason": "no summary line after %d attempts" % len(logs)})
 for cls, (case, detail) in classes.items():
     h = hashlib.sha1(cls.encode()).hexdigest()[:16]
     d = "/verif/replays/C06/miri-" + h
